@@ -33,7 +33,7 @@ def main():
             print("TESTS:", t.stdout.strip().split("\n")[-1])
         verif = os.path.dirname(os.path.dirname(os.path.abspath(__file__)))
         for i in ids:
-            r = subprocess.run(["./check", i, "--tier", tier], cwd=verif, env=dict(os.environ, MOFUN_REPO=d),
+            r = subprocess.run(["./check", i, "--tier", tier], cwd=verif, env=dict(os.environ, MOFUN_REPO=d, VERIF_EVIDENCE_DIR=os.path.join(d, "_evidence")),
                                stdout=subprocess.PIPE, stderr=subprocess.STDOUT, text=True)
             last = [l for l in r.stdout.strip().split("\n") if l.startswith(("VIOLATION", "OK", "KNOWN", "TIMEOUT"))]
             print("%s rc=%d %s" % (i, r.returncode, " | ".join(last) or r.stdout[-300:]))
